@@ -29,6 +29,7 @@ def run(chk, tier):
     chk.guarded(c02.r_wrappers, P, None)
     from props import c05
     chk.guarded(c05.r_projections, P, None)     # a unique wall-clock time is its own earliest / latest / single instant
+    chk.guarded(r_offset_shift_map, P, tier)
     chk.assume("foreign TimeZone implementations are outside the analysed program")
     chk.assume("that local<->UTC round trips are identities on values (the one-day headroom arithmetic) is not decided")
     return {
@@ -407,3 +408,110 @@ def r_offset_range(chk, P):
             else:
                 ok = fld == ("arg", 1)
         chk.expect(ok, fn, "%s: acceptance box %s" % (fn, [(b[0], [pp(c[1]) for c in b[1]]) for b in bs]), loc=P.loc(fn))
+
+
+def r_offset_shift_map(chk, P, tier):
+    """Wall clock = UTC + offset as a region-representative value map. NaiveDateTime::checked_add/sub_offset and overflowing_add/sub_offset, the provided TimeZone::from_utc_datetime /
+    from_local_datetime with a FixedOffset receiver, and DateTime::naive_local / overflowing_naive_local / timestamp / naive_utc are folded (no execution) for times on both sides of
+    midnight and a leap second, dates in mid-year, at year ends and at both ends of the range, and offsets 0, +-1 s, +-1 h -+1 s, +-(24 h - 1 s): the wall clock is the UTC reading
+    shifted by exactly the offset with the (leap) fraction kept, the checked forms refuse exactly the results outside MIN..=MAX, the overflowing forms go up to a day beyond, and
+    building from a wall-clock time and reading it back (or from UTC) is the identity."""
+    import calendar_oracle as cal
+    from finmap import Folder, show, Unknown
+    from rules import table_value
+    from props.c01 import flags_of
+    chk.rule("MAP.offset_shift", "checked / overflowing offset shifts of NaiveDateTime, from_utc_datetime / from_local_datetime of FixedOffset and naive_local / timestamp of DateTime folded on all region boundaries equal UTC + offset", floor=3000)
+    fo = Folder(P, max_depth=14)
+    tbl = [flags_of(c) for c in table_value(P, "naive::internals::YEAR_TO_FLAGS")]
+    miny, maxy = P.value("naive::date::MIN_YEAR"), P.value("naive::date::MAX_YEAR")
+    epoch = cal.day_number(1970, 1, 1)
+    dn_min, dn_max = cal.day_number(miny, 1, 1), cal.day_number(maxy, 12, 31)
+    NDT = "naive::datetime::NaiveDateTime"
+
+    def yof_of_dn(dn):
+        y = dn * 400 // 146097
+        while cal.day_number(y, 1, 1) > dn:
+            y -= 1
+        while cal.day_number(y + 1, 1, 1) <= dn:
+            y += 1
+        o = dn - cal.day_number(y, 1, 1) + 1
+        return (y << 13) | (o << 4) | tbl[y % 400]
+
+    def ndt(dn, secs, frac):
+        return ("agg", "adt", NDT, "NaiveDateTime", (("agg", "adt", "naive::date::NaiveDate", "NaiveDate", (("const", yof_of_dn(dn)),), 0),
+                                                     ("agg", "adt", "naive::time::NaiveTime", "NaiveTime", (("const", secs), ("const", frac)), 0)), 0)
+
+    def fix(sec):
+        return ("agg", "adt", "offset::fixed::FixedOffset", "FixedOffset", (("const", sec),), 0)
+
+    def parts(v):
+        if v == "Option::None":
+            return None
+        if isinstance(v, tuple) and v[0] in ("Option::Some", "LocalResult::Single"):
+            v = v[1]
+        if isinstance(v, tuple) and v[0] == "DateTime::DateTime":
+            v = v[1]
+        def first_int(x):
+            # a date that is one of the crate's constants (BEFORE_MIN / AFTER_MAX) shows as the decoded constant struct: its only integer is the packed yof
+            if isinstance(x, int) and not isinstance(x, bool):
+                return x
+            if isinstance(x, tuple):
+                for y in x:
+                    r = first_int(y)
+                    if r is not None:
+                        return r
+            return None
+        try:
+            d = v[1][1] if isinstance(v[1], tuple) and v[1] and v[1][0] == "NaiveDate::NaiveDate" else first_int(v[1])
+            return (d, v[2][1], v[2][2])
+        except Exception:
+            return ("?", v)
+
+    def shifted(dn, secs, frac, off, lo, hi):
+        t = secs + off
+        dn2, s2 = dn + t // 86400, t % 86400
+        if not lo <= dn2 <= hi:
+            return None
+        return (yof_of_dn(dn2), s2, frac)
+    bad = {}
+    n = [0]
+
+    def expect(cls, a, got, w):
+        if got == w:
+            n[0] += 1
+        else:
+            bad.setdefault(cls, (a, got, w))
+
+    def fold(fn, args):
+        try:
+            return show(fo.call(fn, args))
+        except Unknown as e:
+            return "unknown: %s" % e
+    days = [cal.day_number(2024, 2, 29), cal.day_number(2023, 12, 31), cal.day_number(2024, 1, 1), epoch, dn_min, dn_min + 1, dn_max - 1, dn_max]
+    times = [(0, 0), (1, 0), (43200, 5), (86398, 0), (86399, 999999999), (86399, 1500000000), (3599, 1000000000)]
+    offs = [0, 1, -1, 3599, -3599, 3600, -3600, 43200, 86399, -86399]
+    for dn in days:
+        for (secs, frac) in times:
+            x = ndt(dn, secs, frac)
+            for off in offs:
+                expect("checked_add_offset", (dn, secs, frac, off), parts(fold(NDT + "::checked_add_offset", [x, fix(off)])), shifted(dn, secs, frac, off, dn_min, dn_max))
+                expect("checked_sub_offset", (dn, secs, frac, off), parts(fold(NDT + "::checked_sub_offset", [x, fix(off)])), shifted(dn, secs, frac, -off, dn_min, dn_max))
+                expect("overflowing_add_offset", (dn, secs, frac, off), parts(fold(NDT + "::overflowing_add_offset", [x, fix(off)])), shifted(dn, secs, frac, off, dn_min - 1, dn_max + 1))
+                expect("overflowing_sub_offset", (dn, secs, frac, off), parts(fold(NDT + "::overflowing_sub_offset", [x, fix(off)])), shifted(dn, secs, frac, -off, dn_min - 1, dn_max + 1))
+                # a zone-aware value built from this UTC reading: stored UTC is the reading, the wall clock is UTC + offset, the timestamp ignores the offset
+                dtv = ("agg", "adt", "datetime::DateTime", "DateTime", (x, fix(off)), 0)
+                expect("from_utc_datetime", (dn, secs, frac, off), parts(fold("offset::TimeZone::from_utc_datetime", [("ref", fix(off)), ("ref", x)])), (yof_of_dn(dn), secs, frac))
+                expect("naive_utc", (dn, secs, frac, off), parts(fold("datetime::DateTime::<Tz>::naive_utc", [("ref", dtv)])), (yof_of_dn(dn), secs, frac))
+                expect("timestamp", (dn, secs, frac, off), fold("datetime::DateTime::<Tz>::timestamp", [("ref", dtv)]), (dn - epoch) * 86400 + secs)
+                expect("overflowing_naive_local", (dn, secs, frac, off), parts(fold("datetime::DateTime::<Tz>::overflowing_naive_local", [("ref", dtv)])), shifted(dn, secs, frac, off, dn_min - 1, dn_max + 1))
+                w = shifted(dn, secs, frac, off, dn_min, dn_max)
+                if w is not None:
+                    expect("naive_local", (dn, secs, frac, off), parts(fold("datetime::DateTime::<Tz>::naive_local", [("ref", dtv)])), w)
+                # from a wall-clock reading: the stored UTC is reading - offset, or no value if that leaves the range
+                got = fold("offset::TimeZone::from_local_datetime", [("ref", fix(off)), ("ref", x)])
+                w = shifted(dn, secs, frac, -off, dn_min, dn_max)
+                expect("from_local_datetime", (dn, secs, frac, off), "LocalResult::None" if got == "LocalResult::None" and w is None else parts(got), "LocalResult::None" if w is None else w)
+    for _ in range(n[0]):
+        chk.ok("value")
+    for cls, (a, got, w) in sorted(bad.items()):
+        chk.bad(cls, "%s: (day number, second, fraction, offset) = %s folds to %s, UTC + offset gives %s" % (cls, a, got, w), loc=P.loc(NDT + "::checked_add_offset"))
